@@ -1487,12 +1487,13 @@ func (c *converter) computeBracketedPolicy(b bracketedLayout) bracketedPolicy {
 	//     layouts where the closer still hugs the last element on a
 	//     shared line (`[a,\n b]`), where a comma must not appear. The
 	//     closer's placement in authored-mode is static (closerRel),
-	//     so the comma keys off the same signal.
+	//     so the comma keys off the same signal. A closer written
+	//     against the last element but forced onto its own line
+	//     because the body opens broken (forceClose below) needs the
+	//     comma as well: otherwise a second formatting pass, which
+	//     then sees the closer on its own line, adds it.
 	wantTrailingComma := false
 	authored := c.authored(b.node)
-	if b.allowsTrailingComma && !hugLast {
-		wantTrailingComma = !authored || b.closerRel >= token.Newline
-	}
 	// A bracketed body that opens broken must also close broken: when
 	// the first element starts on its own line (or
 	// interior/line-header comments force the open break), the closing
@@ -1512,6 +1513,13 @@ func (c *converter) computeBracketedPolicy(b bracketedLayout) bracketedPolicy {
 	}
 	openBreaks := b.lineHeader || b.hasInterior || leadRel >= token.Newline || forceOpen
 	forceClose := openBreaks || b.closerRel >= token.Newline
+	if b.allowsTrailingComma && !hugLast {
+		// A closer that the source places against the last element
+		// (it has a RelPos, but not a line break) and that forceClose
+		// moves onto its own line counts as broken too.
+		wantTrailingComma = !authored || b.closerRel >= token.Newline ||
+			(forceClose && b.closerRel != token.NoRelPos)
+	}
 	return bracketedPolicy{
 		hugFirst:          hugFirst,
 		hugLast:           hugLast,
